@@ -106,29 +106,46 @@ theorem C20_nonbool_rejected_state_unchanged (c : Case) (st : St) (a : Arg) :
     validator of every field (in field order, `and_` members in order) iff validators are enabled; the first
     callback that raises ends it and its exception propagates.  For arbitrary field lists, through the
     shared initializer model. -/
-theorem C20_honoured_construct (c : Case) (hwf : wf c = true) (st st' : St) :
-    (stepObs c st st' .construct).events = cutIds c.fault (constructPlan c.cls st.run) ∧
-    (stepObs c st st' .construct).exc =
-      (if hitsIds c.fault (constructPlan c.cls st.run) then some .user else none) := by
-  have hI : C02.wf (initCase c.cls true c.fault) = true := by
-    unfold wf at hwf; simp only [Bool.and_eq_true] at hwf; exact hwf.2
-  exact construct_spec c.cls st.run c.fault hI
+theorem C20_honoured_construct (c : Case) (hwf : wf c = true) (st st' : St) (k : Nat) (cls : Cls)
+    (hk : c.classes[k]? = some cls) :
+    (stepObs c st st' (.construct k)).events = cutIds c.fault (constructPlan cls st.run) ∧
+    (stepObs c st st' (.construct k)).exc =
+      (if hitsIds c.fault (constructPlan cls st.run) then some .user else none) := by
+  have hI : C02.wf (initCase cls true c.fault) = true := by
+    unfold wf at hwf; simp only [Bool.and_eq_true, List.all_eq_true] at hwf
+    exact hwf.2 cls (List.mem_of_getElem? hk)
+  simp only [stepObs, hk, mkStep]
+  exact construct_spec cls st.run c.fault hI
 
 /-- **C20_honoured_assign**: an assignment runs the hooks the field is subject to (its own `on_setattr`,
     else the class's, else `define`'s convert+validate, none for `NO_OP` or plain `attr.s`): user hooks and
     the converter whatever the switch says, the field's validators at each `setters.validate` iff enabled. -/
-theorem C20_honoured_assign (c : Case) (st st' : St) (i : Nat) (f : Field) (hf : c.cls.fields[i]? = some f) :
-    (stepObs c st st' (.assign i)).events = cutIds c.fault (assignPlan c.cls st.run f) ∧
-    (stepObs c st st' (.assign i)).exc =
-      (if hitsIds c.fault (assignPlan c.cls st.run f) then some .user else none) := by
-  simp only [stepObs, hf, mkStep, runAssign_eq, events_of_run, exc_of_run, and_self]
+theorem C20_honoured_assign (c : Case) (st st' : St) (k i : Nat) (cls : Cls) (f : Field)
+    (hk : c.classes[k]? = some cls) (hf : cls.fields[i]? = some f) :
+    (stepObs c st st' (.assign k i)).events = cutIds c.fault (assignPlan cls st.run f) ∧
+    (stepObs c st st' (.assign k i)).exc =
+      (if hitsIds c.fault (assignPlan cls st.run f) then some .user else none) := by
+  simp only [stepObs, hk, hf, mkStep, runAssign_eq, events_of_run, exc_of_run, and_self]
 
 /-- **C20_honoured_validate**: `validate(inst)` runs every validator iff enabled, nothing otherwise. -/
-theorem C20_honoured_validate (c : Case) (st st' : St) :
-    (stepObs c st st' .validate).events = cutIds c.fault (validatePlan c.cls st.run) ∧
-    (stepObs c st st' .validate).exc =
-      (if hitsIds c.fault (validatePlan c.cls st.run) then some .user else none) := by
-  simp only [stepObs, mkStep, runValidate_eq, events_of_run, exc_of_run, and_self]
+theorem C20_honoured_validate (c : Case) (st st' : St) (k : Nat) (cls : Cls) (hk : c.classes[k]? = some cls) :
+    (stepObs c st st' (.validate k)).events = cutIds c.fault (validatePlan cls st.run) ∧
+    (stepObs c st st' (.validate k)).exc =
+      (if hitsIds c.fault (validatePlan cls st.run) then some .user else none) := by
+  simp only [stepObs, hk, mkStep, runValidate_eq, events_of_run, exc_of_run, and_self]
+
+/-- **C20_readers_memoryless**: what a construction, assignment or `validate()` runs depends on the class of
+    the instance, the switch position and nothing else: not on which instances of which classes of the
+    hierarchy were constructed, assigned to or validated before, nor on open blocks.  (In particular a
+    subclass instance gets *its* fields' validators whether or not a base-class instance was validated
+    first.) -/
+theorem C20_readers_memoryless (c : Case) (st₁ st₁' st₂ st₂' : St) (op : Op)
+    (hop : (∃ k, op = .construct k) ∨ (∃ k i, op = .assign k i) ∨ (∃ k, op = .validate k))
+    (h : st₁.run = st₂.run) :
+    (stepObs c st₁ st₁' op).events = (stepObs c st₂ st₂' op).events ∧
+    (stepObs c st₁ st₁' op).exc = (stepObs c st₂ st₂' op).exc := by
+  rcases hop with ⟨k, rfl⟩ | ⟨k, i, rfl⟩ | ⟨k, rfl⟩ <;> simp only [stepObs, h] <;>
+    (repeat' split) <;> simp [mkStep]
 
 /-- disabled ⇒ no validator among the callbacks of any of the three readers -/
 theorem C20_disabled_no_validator (cls : Cls) (f : Field) :
@@ -165,12 +182,12 @@ theorem C20_switch_independence (cls : Cls) (f : Field) :
 
 /-- enabled and nothing fails ⇒ *all* validators of *all* fields fire on construction and in `validate()` -/
 theorem C20_enabled_all_fire (c : Case) (hwf : wf c = true) (st st' : St) (hr : st.run = true)
-    (hf : c.fault = none) :
-    (stepObs c st st' .construct).events = convPlan c.cls.fields ++ validatorPlan c.cls.fields ∧
-    (stepObs c st st' .validate).events = validatorPlan c.cls.fields ∧
-    (stepObs c st st' .construct).exc = none ∧ (stepObs c st st' .validate).exc = none := by
-  have h1 := C20_honoured_construct c hwf st st'
-  have h2 := C20_honoured_validate c st st'
+    (hf : c.fault = none) (k : Nat) (cls : Cls) (hk : c.classes[k]? = some cls) :
+    (stepObs c st st' (.construct k)).events = convPlan cls.fields ++ validatorPlan cls.fields ∧
+    (stepObs c st st' (.validate k)).events = validatorPlan cls.fields ∧
+    (stepObs c st st' (.construct k)).exc = none ∧ (stepObs c st st' (.validate k)).exc = none := by
+  have h1 := C20_honoured_construct c hwf st st' k cls hk
+  have h2 := C20_honoured_validate c st st' k cls hk
   rw [hf] at h1 h2
   simp only [hitsIds_none, cutIds_of_not_hits _ _ (hitsIds_none _), Bool.false_eq_true, if_false, hr,
     constructPlan, validatePlan, if_true] at h1 h2
@@ -202,19 +219,21 @@ theorem C20_define_default_assign (cls : Cls) (run : Bool) (f : Field)
 theorem C20_block_silences_validators (c : Case) (hwf : wf c = true) (st : St) (body : List Op) (d' : Nat)
     (hb : bal 0 body = some d')
     (hno : ∀ op ∈ body, (∀ a, op ≠ .setDisabled a) ∧ (∀ a, op ≠ .setRun a)) :
-    ((stepObs c (runSt st (.enter :: body)) (runSt st (.enter :: body)) .construct).events.filter isValidator = []) ∧
-    ((stepObs c (runSt st (.enter :: body)) (runSt st (.enter :: body)) .validate).events = []) ∧
-    (∀ i f, c.cls.fields[i]? = some f →
-      (stepObs c (runSt st (.enter :: body)) (runSt st (.enter :: body)) (.assign i)).events.filter isValidator = []) := by
+    ∀ k cls, c.classes[k]? = some cls →
+    ((stepObs c (runSt st (.enter :: body)) (runSt st (.enter :: body)) (.construct k)).events.filter isValidator = []) ∧
+    ((stepObs c (runSt st (.enter :: body)) (runSt st (.enter :: body)) (.validate k)).events = []) ∧
+    (∀ i f, cls.fields[i]? = some f →
+      (stepObs c (runSt st (.enter :: body)) (runSt st (.enter :: body)) (.assign k i)).events.filter isValidator = []) := by
   have hr := C20_disabled_inside st body d' hb hno
   generalize runSt st (.enter :: body) = s at hr
+  intro k cls hk
   refine ⟨?_, ?_, ?_⟩
-  · rw [(C20_honoured_construct c hwf s s).1, hr]
-    exact filter_cutIds_nil _ _ _ (C20_disabled_no_validator c.cls default).1
-  · rw [(C20_honoured_validate c s s).1, hr]; rfl
+  · rw [(C20_honoured_construct c hwf s s k cls hk).1, hr]
+    exact filter_cutIds_nil _ _ _ (C20_disabled_no_validator cls default).1
+  · rw [(C20_honoured_validate c s s k cls hk).1, hr]; rfl
   · intro i f hf
-    rw [(C20_honoured_assign c s s i f hf).1, hr]
-    exact filter_cutIds_nil _ _ _ (C20_disabled_no_validator c.cls f).2.1
+    rw [(C20_honoured_assign c s s k i cls f hk hf).1, hr]
+    exact filter_cutIds_nil _ _ _ (C20_disabled_no_validator cls f).2.1
 
 /-- **C20_default_hook_documented** (tables regenerated from the source, T1): `_DEFAULT_ON_SETATTR` is
     convert-then-validate, and `on_setattr` defaults to `None` in `attr.s`, `define`, `attr.ib`, `field`. -/
@@ -228,9 +247,10 @@ theorem C20_default_hook_documented :
 
 /-- the three readers and the getters never move the switch -/
 theorem C20_readers_leave_switch (st : St) (op : Op)
-    (h : op = .construct ∨ op = .validate ∨ op = .getDisabled ∨ op = .getRun ∨ ∃ i, op = .assign i) :
+    (h : (∃ k, op = .construct k) ∨ (∃ k, op = .validate k) ∨ op = .getDisabled ∨ op = .getRun ∨
+      ∃ k i, op = .assign k i) :
     stepSt st op = st := by
-  rcases h with h | h | h | h | ⟨i, h⟩ <;> subst h <;> rfl
+  rcases h with ⟨k, h⟩ | ⟨k, h⟩ | h | h | ⟨k, i, h⟩ <;> subst h <;> rfl
 
 /-! ## The specification's bracket matching is the usual one -/
 
@@ -255,16 +275,12 @@ theorem C20_model_meets_spec (c : Case) (hwf : wf c = true) : spec c (model c) =
   unfold wf at hwf
   simp only [Bool.and_eq_true, List.all_eq_true] at hwf
   obtain ⟨⟨⟨hb, ha⟩, _⟩, hI⟩ := hwf
-  refine specGo_model c hI c.ops (St.init c) [] rfl hb ?_
-  intro op hop i hi
-  have := ha op hop
-  subst hi
-  simpa using this
+  exact specGo_model c hI c.ops (St.init c) [] rfl hb ha
 
 /-! ## What `C20_restore` excludes: the context manager before ee5b683 -/
 
 def witnessCase : Case :=
-  { cls := { isDefine := false, clsOnSet := .unset, fields := [] }, fault := none, start := true,
+  { classes := [{ isDefine := false, clsOnSet := .unset, fields := [] }], fault := none, start := true,
     ops := [.enter, .enter, .exit, .exit] }
 
 /-- **C20_old_manager_violates** (regression witness for the repaired deviation F1; `stepStOld`/`modelOld` are
@@ -291,22 +307,29 @@ theorem C20_old_manager_violates_flat :
 
 example : wf witnessCase = true := by decide
 
-example : bal 0 [.enter, .setDisabled .F, .enter, .construct, .exitExc, .validate] = some 1 := by decide
+example : bal 0 [.enter, .setDisabled .F, .enter, .construct 0, .exitExc, .validate 1] = some 1 := by decide
 
-/-- a well-formed case with a validated, converted field, a failing validator and a nested history: the
-    hypotheses of `C20_honoured_construct`, `C20_block_silences_validators`, `C20_model_meets_spec` are satisfiable -/
+/-- a well-formed case: a base class, a subclass that adds a validated field and one that re-declares the
+    base's field; a failing validator; a nested history that validates the base instance first: the hypotheses
+    of `C20_honoured_*`, `C20_block_silences_validators`, `C20_model_meets_spec` are satisfiable -/
 def sampleCase : Case :=
-  { cls := { isDefine := true, clsOnSet := .unset,
-             fields := [{ name := "x", validators := 2, conv := true, onSet := .unset },
-                        { name := "y", validators := 1, conv := false, onSet := .chain [.custom, .validate] }] },
-    fault := some { kind := "validator", field := "x", idx := 1 }, start := true,
-    ops := [.construct, .enter, .enter, .setDisabled .F, .assign 1, .exitExc, .construct, .exit, .validate] }
+  { classes := [
+      { isDefine := true, clsOnSet := .unset,
+        fields := [{ name := "x", validators := 2, conv := true, onSet := .unset }] },
+      { isDefine := true, clsOnSet := .unset,
+        fields := [{ name := "x", validators := 2, conv := true, onSet := .unset },
+                   { name := "y", validators := 1, conv := false, onSet := .chain [.custom, .validate] }] },
+      { isDefine := true, clsOnSet := .unset,
+        fields := [{ name := "x", validators := 1, conv := false, onSet := .unset }] }],
+    fault := some { kind := "validator", field := "y", idx := 0 }, start := true,
+    ops := [.validate 0, .validate 1, .validate 2, .enter, .enter, .setDisabled .F, .assign 1 1, .exitExc,
+            .construct 1, .exit, .validate 1] }
 
 example : wf sampleCase = true := by decide
 
 example : ((model sampleCase).steps.map (fun s => (s.run, s.events.length, s.exc))) =
-    [(.t, 3, some .user), (.f, 0, none), (.f, 0, none), (.t, 0, none), (.t, 2, none), (.f, 0, none),
-     (.f, 1, none), (.t, 0, none), (.t, 2, some .user)] := by decide
+    [(.t, 2, none), (.t, 3, some .user), (.t, 1, none), (.f, 0, none), (.f, 0, none), (.t, 0, none),
+     (.t, 2, some .user), (.f, 0, none), (.f, 1, none), (.t, 0, none), (.t, 3, some .user)] := by decide
 
 example : ∃ cls f, (∃ e ∈ assignPlan cls true f, isValidator e = true) :=
   ⟨{ isDefine := true, clsOnSet := .unset, fields := [] },
